@@ -48,6 +48,10 @@ class ContinueEx(Exception):
     pass
 
 
+class FStr(str):
+    """result of an f-string with symbolic fields: the text with `<?>` placeholders plus the field values (`sym_parts`)"""
+
+
 class PyRaise(Exception):
     """A Python exception propagating in the interpreted program."""
 
@@ -1205,6 +1209,7 @@ class Exec:
 
     def e_JoinedStr(self, e):
         parts = []
+        sym_parts = []
         for v in e.values:
             if isinstance(v, ast.Constant):
                 parts.append(str(v.value))
@@ -1218,7 +1223,12 @@ class Exec:
                     if x is None and v.format_spec is not None:
                         raise PyRaise(make_exc(self.interp, "TypeError", "unsupported format string passed to NoneType.__format__"))
                     parts.append("<?>")  # formatting itself is opaque
-        return "".join(parts)
+                    sym_parts.append(x)
+        out = "".join(parts)
+        if sym_parts:
+            out = FStr(out)
+            out.sym_parts = sym_parts  # the formatted (symbolic) values in order: two such strings are equal iff all of these are
+        return out
 
     def e_Lambda(self, e):
         return Func(e, self.env, self.module, self.qual + ".<lambda>",
